@@ -1130,8 +1130,8 @@ func c22EvalXform(q *c22Query, g *c22Group, exp *c22Expect) *c22ExpSeries {
 			if cell.isNull() {
 				continue
 			}
-			if len(cell.Alts) != 1 || cell.Approx || cell.Slack1 {
-				exp.Ambiguous = "transformation input is a tie alternative / approximate"
+			if len(cell.Alts) != 1 || cell.Slack1 || cell.Range {
+				exp.Ambiguous = "transformation input is a tie alternative"
 				return nil
 			}
 			v := cell.Alts[0]
@@ -1152,6 +1152,17 @@ func c22EvalXform(q *c22Query, g *c22Group, exp *c22Expect) *c22ExpSeries {
 	defUnit := int64(0)
 	if c.Inner != "" {
 		defUnit = q.Interval
+	}
+	if c.Inner == "mean" && strings.HasPrefix(c.Func, "non_negative") {
+		// inputs are only known up to the rounding of mean(): a difference that is zero up to
+		// that rounding may be kept or dropped
+		for k := 1; k < len(in); k++ {
+			a, b := in[k-1].f(), in[k].f()
+			if a != b && math.Abs(a-b) <= 1e-9*math.Max(math.Abs(a), math.Abs(b)) {
+				exp.Ambiguous = "non_negative_* over mean() values equal up to rounding"
+				return nil
+			}
+		}
 	}
 	outs := c23Seq(c.Func, in, c.Unit, defUnit, c.N)
 	s := &c22ExpSeries{Name: g.Name, Tags: g.Tags}
